@@ -12,6 +12,7 @@ import (
 	"hash/fnv"
 	"os"
 	"path/filepath"
+	"runtime/debug"
 	"sort"
 	"strconv"
 	"strings"
@@ -380,7 +381,7 @@ func Exec[S any](t *testing.T, c Check[S]) {
 		if !ok {
 			t.Skipf("replay file is for another test")
 		}
-		c.Run(r, t, spec)
+		runGuarded(r, t, c.Run, spec)
 		return
 	}
 	files, _ := filepath.Glob(filepath.Join(Root(), "regress", c.ID, c.Test+"-*.json"))
@@ -391,7 +392,7 @@ func Exec[S any](t *testing.T, c Check[S]) {
 			continue
 		}
 		r.Count("regress-cases", 1)
-		c.Run(r, t, spec)
+		runGuarded(r, t, c.Run, spec)
 	}
 	if c.Gen == nil {
 		return
@@ -404,11 +405,62 @@ func Exec[S any](t *testing.T, c Check[S]) {
 			// overflow, fatal runtime error) into a replayable case
 			r.Pending(s)
 		}
-		c.Run(r, rt, s)
+		runGuarded(r, rt, c.Run, s)
 		if pending {
 			r.Done()
 		}
 	})
+}
+
+// runGuarded runs one case. A panic raised inside the library under test (the
+// first frame below the runtime's is a sqlittle function) that the check did
+// not catch itself is a violation of the case, not a failure of the harness;
+// everything else (the test library's own control flow, a bug in the check)
+// is passed on.
+func runGuarded[S any](r *Run, t TB, run func(*Run, TB, S), spec S) {
+	defer func() {
+		p := recover()
+		if p == nil {
+			return
+		}
+		if strings.HasPrefix(fmt.Sprintf("%T", p), "rapid.") {
+			panic(p)
+		}
+		fn := panicOrigin(string(debug.Stack()))
+		if !strings.HasPrefix(fn, "github.com/alicebob/sqlittle") {
+			panic(p)
+		}
+		short := strings.TrimPrefix(fn, "github.com/alicebob/sqlittle")
+		short = strings.TrimPrefix(strings.TrimPrefix(short, "/"), ".")
+		r.Violation(t, spec, "panic:"+short, "the library panics in %s: %v", fn, p)
+	}()
+	run(r, t, spec)
+}
+
+// panicOrigin gives the function that panicked: the first frame after the
+// "panic(" line of a stack dump that is not the runtime's.
+func panicOrigin(stack string) string {
+	lines := strings.Split(stack, "\n")
+	seen := false
+	for _, l := range lines {
+		if strings.HasPrefix(l, "\t") {
+			continue // file:line
+		}
+		if !seen {
+			if strings.HasPrefix(l, "panic(") {
+				seen = true
+			}
+			continue
+		}
+		if strings.HasPrefix(l, "runtime.") || strings.HasPrefix(l, "panic(") || l == "" {
+			continue
+		}
+		if i := strings.LastIndex(l, "("); i > 0 {
+			l = l[:i]
+		}
+		return l
+	}
+	return ""
 }
 
 func loadSpec[S any](t *testing.T, r *Run, path, test string) (S, bool) {
